@@ -217,6 +217,7 @@ func TestC02_Splices(t *testing.T) {
 		if err != nil {
 			t.Fatalf("cannot sign: %v", err)
 		}
+		otherTrafficEvery(4)
 		kind := rapid.SampledFrom([]string{"splice-payload", "splice-protected", "splice-signature", "sig-zero", "sig-random", "sig-flip", "byte-edits", "alg-unprotected-only", "alg-nowhere", "nil-payload", "empty-signature", "wrong-key", "reencode", "equiv-protected", "equiv-protected", "equiv-payload", "extend-payload", "extend-payload", "extend-protected", "shrink-payload"}).Draw(t, "kind")
 		var mut []byte
 		detail := ""
